@@ -283,7 +283,7 @@ def _rejected_in_helper(P, F, sk, is_arg, field, bad_hi):
             A2.run()
             fptr = F.d.get('ret_t', '').endswith('*')
             accepts = [v for (_, _, v) in A2.ret_states
-                       if v is None or (fptr and not (v.nn is False or v.const() == 0)) or (not fptr and v.lo <= 0 <= v.hi)]
+                       if v is None or (fptr and not (v.nn is False or v.const() == 0)) or (not fptr and v.lo <= 0 <= v.hi and 0 not in v.ne)]
             if not accepts:
                 return True
     return False
